@@ -1,16 +1,19 @@
 """C11 — Namespace vs Model/Ns.v vs Spec/NestedDict.v over operation histories."""
 import itertools
 import os
+import sys
 
 from tie import framework as fw
 from tie.framework import g_bool, g_list, g_opt, g_pair, g_str, g_Z
 
 PROP = "C11"
 IMPORTS = "From JV Require Import Lib.Base Model.Ns Model.NsRun Model.NsGuard Spec.NestedDict Spec.NestedDictRun Gen.C11Clash Corr.C11Judge."
-RULE = ("histories of Namespace operations {set, setattr, get, get-default, contains, del, pop, update(value), update(ns), "
-        "update(only_unset), clone, items/keys/values(branches), as_dict, Namespace(dict)} starting from an empty namespace; "
-        "keys of depth 1-3 over ordinary names and the method-name clashes; scalar/None/list/tuple/dict/namespace values. "
-        "quick: every history of length <=2 over a fixed operation alphabet plus seeded random histories of length 3-40; "
+RULE = ("histories of Namespace operations {set, setattr, get, get-default, contains, step-by-step get, del, pop, update(value), "
+        "update(ns), update(only_unset), clone, items/keys/values(branches), as_dict + namespace_to_dict, ==/!= against a built "
+        "value, Namespace(dict), dict_to_namespace(dict)} starting from an empty namespace; keys of depth 1-3 over ordinary names "
+        "and the method-name clashes; scalar/None/list/tuple/dict/namespace values. quick: every history of length <=2 over a "
+        "fixed operation alphabet (78 operations), 400 equality histories [ns[k]=V; (random step); ns == re-ordered or "
+        "one-place-perturbed V], and 1500 seeded random histories of length 3-40 (thorough: also length-3 products and 30000 random); "
         "after EVERY step the output and the whole __dict__ tree are compared with model and spec. "
         "non-trivial = history with at least one successful mutation; distinct = distinct (history, observations)")
 TRUSTED = [
@@ -24,6 +27,35 @@ ASSUMPTIONS = [
 ]
 EXHAUSTIVE = {"quick": False, "thorough": False}
 FINDING_CLASSES = {1: "path-through-dict"}
+META = {
+    "level_text": "Proved in Coq for ALL inputs of the modelled space (coq/Properties/C11.v, every theorem closed under the global "
+                  "context): ns_refines_dict — for ANY clash set and ANY history (unbounded length, key depth and value size) of "
+                  "ns[k]=v, setattr, ns[k], get(k,d), k in ns, del, pop, update(value,k,only_unset), clone, "
+                  "items/keys/values(branches) and as_dict from the empty Namespace, the Gallina model of "
+                  "jsonargparse.Namespace answers every step exactly as an ordered nested dictionary addressed by paths does "
+                  "and its stored __dict__ tree, clash marks removed, IS that dictionary after every step; keys the code rejects "
+                  "(space, empty segment) are included (both fail, state unchanged). Hypothesis (one executable classifier, "
+                  "hist_class = 0): key segments do not start with U+200B, Namespace values are in stored form, and no addressed "
+                  "path passes through a dict-valued leaf. step_commutes / ns_refines_dict_from: the same from any well-formed "
+                  "state; items_agree and as_dict_agrees (no hypothesis at all): items/keys/values and as_dict of any tree are "
+                  "those of the dictionary; dotted_eq_stepwise / stepwise_eq_dotted: reading s1.s2...sn as one dotted string is "
+                  "reading ns[s1][s2]...[sn] for any depth; clash_names_transparent: the user-visible behaviour does not depend "
+                  "on the clash set (method-name keys are stored and returned like any other); failed_op_changes_nothing. "
+                  "path_through_dict_refuted: outside the guard the refinement fails on the pinned code (ns['a']={'b':1}; "
+                  "ns['a.b'] raises) — open finding path-through-dict with a repair in fixes/C11-path-through-dict.patch.",
+    "level_note": "Only exercised by the correspondence (model AND spec agreement demanded per step, judged inside Coq, not "
+                  "proved): update(namespace), Namespace(dict), dict_to_namespace, namespace_to_dict (= as_dict, no shared "
+                  "branch), == / != (Python equality of the stored trees vs equality of the dictionaries, order-insensitive), "
+                  "step-by-step reading as an operation of histories, clone's no-aliasing check, and all histories through a "
+                  "dict-valued leaf. Not modelled: exception classes, aliasing between a stored value and the caller's object, "
+                  "as_flat, get_sorted_keys, meta keys / strip_meta, non-string dict keys, dict keys that are attribute names of "
+                  "dict but not of Namespace (hasattr(dict,k) taken as False). Trusted: Coq kernel + vm_compute; faithfulness of "
+                  "coq/Model/Ns.v beyond the tested histories; tie/impl/c11_ns.py and the Gallina printer; translator of "
+                  "dir(Namespace) (the theorems hold for any clash set).",
+    "technique": "Rocq refinement proof (Gallina model of Namespace vs ordered nested-dictionary spec, step simulation lifted "
+                 "over fold on histories by induction) + correspondence over exhaustive short and seeded random histories of the "
+                 "real class, verdicts (model agreement / guard class / spec agreement) computed in Coq by vm_compute",
+}
 
 NAMES = ["a", "b", "items", "keys", "get", "update", "pop", "clone", "values", "as_dict"]
 
@@ -39,7 +71,7 @@ def translate():
     if p.returncode != 0:
         raise fw.TieBroken("cannot read clash_names / clash_mark from the tree: " + p.stderr.decode()[-500:])
     names = json.loads(p.stdout.decode().strip().splitlines()[-1])
-    text = "From JV Require Import Lib.Base.\nDefinition clash_names : list str := [\n" + ";\n".join(g_str(n) for n in names) + "].\n"
+    text = "From JV Require Import Lib.Base.\nDefinition clash_names : list str := [\n" + ";\n".join(fw.g_str(n) for n in names) + "].\n"
     path = os.path.join(fw.COQ, "Gen", "C11Clash.v")
     if not os.path.exists(path) or open(path).read() != text:
         open(path, "w").write(text)
@@ -70,6 +102,8 @@ def alphabet(keys, values):
             ops.append({"op": "set", "k": k, "v": v})
         ops += [{"op": "get", "k": k}, {"op": "contains", "k": k}, {"op": "del", "k": k},
                 {"op": "pop", "k": k, "dflt": I(9)}, {"op": "getd", "k": k, "dflt": I(9)}]
+        if "." in k:
+            ops.append({"op": "getsteps", "k": k})
     return ops
 
 
@@ -87,6 +121,10 @@ def small_alphabet():
             {"op": "initdict", "v": D(**{"a.b": I(1), "items": D(x=I(2))})},
             {"op": "set", "k": "a b", "v": I(1)}, {"op": "get", "k": "a..b"}, {"op": "contains", "k": "a b"},
             {"op": "pop", "k": "", "dflt": I(9)}]
+    ops += [{"op": "eq", "v": NS()}, {"op": "eq", "v": NS(a=I(1))}, {"op": "eq", "v": NS(a=NS(b=I(1)))},
+            {"op": "eq", "v": NS(items=I(1))}, {"op": "eq", "v": NS(a=D(items=I(2), b=I(1)))}, {"op": "eq", "v": D(a=I(1))},
+            {"op": "fromdict", "v": D(**{"a.b": I(1), "items": D(x=I(2), keys=L(D(a=I(1)), I(2))), "a": D(items=I(3))})},
+            {"op": "fromdict", "v": D(a=D(), b=L(L(D(a=I(1)))), **{"a.b c": I(1)})}]
     return ops
 
 
@@ -129,8 +167,10 @@ def random_op(rng):
         return {"op": "set", "k": k, "v": random_value(rng)}
     if r < 0.34:
         return {"op": "setattr", "k": k, "v": random_value(rng)}
-    if r < 0.42:
+    if r < 0.39:
         return {"op": "get", "k": k}
+    if r < 0.42:
+        return {"op": "getsteps", "k": k}
     if r < 0.47:
         return {"op": "getd", "k": k, "dflt": I(9)}
     if r < 0.55:
@@ -143,14 +183,18 @@ def random_op(rng):
         return {"op": "updv", "v": random_value_non_ns(rng), "k": rng.choice([k, k, None]), "ou": rng.random() < 0.5}
     if r < 0.85:
         return {"op": "updns", "v": random_ns(rng, 0), "k": rng.choice([None, None, random_key(rng)]), "ou": rng.random() < 0.5}
+    if r < 0.865:
+        return {"op": "eq", "v": rng.choice([random_ns(rng, 0), NS()])}
     if r < 0.88:
         return {"op": "clone"}
     if r < 0.94:
         return {"op": "items", "br": rng.random() < 0.5}
     if r < 0.97:
         return {"op": "asdict"}
-    if r < 0.985:
+    if r < 0.98:
         return {"op": "initdict", "v": {"d": [[random_key(rng), random_dict_value(rng, 1)] for _ in range(rng.randint(0, 3))]}}
+    if r < 0.99:
+        return {"op": "fromdict", "v": {"d": [[random_key(rng), random_dict_value(rng, 0)] for _ in range(rng.randint(0, 3))]}}
     return {"op": rng.choice(["set", "get", "contains", "del"]), "k": rng.choice(BADKEYS), "v": I(1)}
 
 
@@ -161,6 +205,67 @@ def random_value_non_ns(rng):
             return v
 
 
+def permuted(rng, v):
+    """the same value with the entries of every Namespace and dict in another order (Python's == must not notice)"""
+    (k, x), = v.items()
+    if k in ("d", "ns"):
+        ents = [[kk, permuted(rng, vv)] for kk, vv in x]
+        rng.shuffle(ents)
+        return {k: ents}
+    if k in ("l", "t"):
+        return {k: [permuted(rng, e) for e in x]}
+    return v
+
+
+def perturbed(rng, v):
+    """a value that differs from v in exactly one place (a leaf, a missing / extra entry, list order, ns<->dict, list<->tuple)"""
+    (k, x), = v.items()
+    if k in ("d", "ns") and x and rng.random() < 0.7:
+        i = rng.randrange(len(x))
+        r = rng.random()
+        if r < 0.2:
+            return {k: x[:i] + x[i + 1:]}
+        if r < 0.3:
+            return {k: x + [["y", I(0)]]}
+        return {k: x[:i] + [[x[i][0], perturbed(rng, x[i][1])]] + x[i + 1:]}
+    if k in ("l", "t") and len(x) > 1 and rng.random() < 0.5:
+        return {k: x[1:] + x[:1]} if x[1:] + x[:1] != x else {k: x[1:]}
+    if k in ("l", "t") and x and rng.random() < 0.6:
+        i = rng.randrange(len(x))
+        return {k: x[:i] + [perturbed(rng, x[i])] + x[i + 1:]}
+    flip = {"d": "ns", "ns": "d", "l": "t", "t": "l"}
+    if k in flip:
+        return {flip[k]: x}
+    return I(7) if v != I(7) else NONE
+
+
+def nest(key, v):
+    segs = key.split(".")
+    for sg in reversed(segs):
+        v = {"ns": [[sg, v]]}
+    return v
+
+
+def eq_family(rng, n):
+    """[ns[k] = V; (an optional further step); ns == W] with W = V re-ordered (True expected unless the extra step changed
+    something) or V changed in one place (False expected)"""
+    cases = []
+    for _ in range(n):
+        k = random_key(rng)
+        v = rng.choice([random_ns(rng, 0), random_value(rng), random_ns(rng, 1)])
+        hist = [{"op": "set", "k": k, "v": v}]
+        r = rng.random()
+        w = permuted(rng, v) if r < 0.5 else perturbed(rng, v) if r < 0.9 else v
+        if rng.random() < 0.3:
+            hist.append(random_op(rng))
+        hist.append({"op": "eq", "v": nest(k, w)})
+        if rng.random() < 0.3:
+            hist += [{"op": "fromdict", "v": {"d": [[random_key(rng), random_dict_value(rng, 0)] for _ in range(rng.randint(1, 3))]}},
+                     {"op": "asdict"}, {"op": "items", "br": True}]
+        cases.append(hist)
+    return cases
+
+
 def generate(rng, tier):
     alpha = small_alphabet()
     cases = [[a] for a in alpha]
@@ -168,6 +273,7 @@ def generate(rng, tier):
     if tier == "thorough":
         first = [a for a in alpha if a["op"] in ("set", "initdict", "updns")]
         cases += [[a, b, c] for a in first for b in alpha[::2] for c in alpha[1::3]]
+    cases += eq_family(rng, 400 if tier == "quick" else 4000)
     n = 1500 if tier == "quick" else 30000
     for _ in range(n):
         ln = rng.randint(3, 40) if rng.random() < 0.5 else rng.randint(3, 10)
@@ -185,6 +291,31 @@ def observe(cases):
 
 
 # ---- Gallina ----------------------------------------------------------------------------------
+# Names defined in Corr/C11Judge.v (n_<name>, mk_ = clash-marked, dk = dotted key): parsing literal code-point lists
+# dominated the coqc time of the case files. Anything outside the table is printed literally.
+SHORT = {"a", "b", "x", "y", "c", "d", "items", "keys", "get", "update", "pop", "clone", "values", "as_dict"}
+_raw_g_str = g_str
+
+
+def _seg(s):
+    if s in SHORT:
+        return "n_" + s
+    if s[:1] == "\u200b" and s[1:] in SHORT:
+        return "(mk_ n_%s)" % s[1:]
+    return None
+
+
+def g_str(s):
+    one = _seg(s)
+    if one:
+        return one
+    if "." in s:
+        segs = [_seg(x) for x in s.split(".")]
+        if all(segs):
+            return "(dk [%s])" % "; ".join(segs)
+    return _raw_g_str(s)
+
+
 def gv(v):
     (k, x), = v.items()
     if k == "i":
@@ -231,6 +362,12 @@ def gop(op):
         return "OAsDict"
     if k == "initdict":
         return "OInitDict (%s)" % gv(op["v"])
+    if k == "fromdict":
+        return "OFromDict (%s)" % gv(op["v"])
+    if k == "getsteps":
+        return "OGetSteps %s" % key
+    if k == "eq":
+        return "OEq (%s)" % gv(op["v"])
     raise ValueError(k)
 
 
@@ -251,8 +388,12 @@ def gout(o):
 
 def term(case, obs):
     ops = g_list([gop(o) for o in obs["ops"]], "op")
-    steps = g_list([g_pair(gout(o), gv(st)[4:]) for o, st in obs["steps"]], "(out * alist)")
-    return "{| c_ops := %s; c_obs := %s |}" % (ops, steps)
+    prev, parts = {"ns": []}, []
+    for o, st in obs["steps"]:      # the tree is printed only when it differs from the one before the step
+        parts.append(g_pair(gout(o), "None" if st == prev else "(Some %s)" % gv(st)[4:]))
+        prev = st
+    steps = g_list(parts, "(out * option alist)")
+    return "{| c_ops := %s; c_steps := %s |}" % (ops, steps)
 
 
 def nontrivial_key(case, obs):
@@ -275,5 +416,28 @@ def describe(case, obs):
 
 
 def shrink(case):
-    for i in range(len(case)):
+    """shortest failing prefix first (a failure at step n needs nothing after n), then histories with chunks / single steps removed"""
+    n = len(case)
+    for k in range(1, n):
+        yield case[:k]
+    if n > 8:
+        for i in range(0, n - 1, 4):
+            yield case[:i] + case[i + 4:] if i + 4 < n else case[:i] + case[-1:]
+    for i in range(n - 1):
         yield case[:i] + case[i + 1:]
+
+
+def search(rng, tier, broken):
+    """A proof or the tie broke without a spec failure among the generated cases: look through a fresh quick-size batch
+    (never the 30k thorough batch) for a history on which the implementation contradicts the spec; failing that, for the
+    shortest history on which it departs from the model."""
+    cases = generate(rng, "quick")
+    obs = observe(cases)
+    bm, bi, bo = fw.judge_cases(sys.modules[__name__], cases, obs, tag="x")
+    known = fw.load_known_findings(PROP)
+    spec_bad = sorted(set(bi) | {i for i, k in bo if FINDING_CLASSES.get(k) not in known}, key=lambda i: len(cases[i]))
+    pick = spec_bad[0] if spec_bad else (sorted(bm, key=lambda i: len(cases[i]))[0] if bm else None)
+    if pick is None:
+        return None
+    what = "implementation contradicts the nested-dictionary spec" if spec_bad else "implementation departs from the model (spec still satisfied)"
+    return {"case": cases[pick], "observed": obs[pick], "explain": dict(describe(cases[pick], obs[pick]), what=what)}
